@@ -36,15 +36,20 @@ Definition c24_intro_from_connected (pre post : st) (o : op) (e : res err) : boo
     end) (conns post).
 Definition c24_state_ok (d : st) : bool :=
   inv_b d && (match conns d with [] => all_empty_b d | _ => true end).
-Definition c24_bfs_pf (c : list op * st * list (res err * option st * bool)) : list bool :=
-  let '(path, pre, trans) := c in
-  map (fun ot : op * (res err * option st * bool) =>
-         let '(o, (e, post, fr)) := ot in
+Fixpoint c24_zip3 (j : Z) (ops : list op) (ts : list (res err * bool)) : list (Z * op * (res err * bool)) :=
+  match ops, ts with
+  | o :: ops', t :: ts' => (j, o, t) :: c24_zip3 (j + 1) ops' ts'
+  | _, _ => []
+  end.
+Definition c24_bfs_pf (c : list op * st * list (res err * bool) * list (Z * st)) : list bool :=
+  let '(path, pre, trans, changes) := c in
+  map (fun x : Z * op * (res err * bool) =>
+         let '(j, o, (e, fr)) := x in
          negb fr ||
-         match post with
+         match aget Z.eqb j changes with
          | Some d => c24_state_ok d && c24_intro_from_connected pre d o e
          | None => c24_state_ok pre
-         end) (combine universe trans).
+         end) (c24_zip3 0 universe trans).
 Definition pf_bfs := Eval vm_compute in c24_flat 0 (map c24_bfs_pf cases_bfs) [].
 Print pf_bfs.
 
@@ -58,5 +63,6 @@ Definition pf_rand := Eval vm_compute in
 Print pf_rand.
 (* non-vacuity: number of explored states / transitions that satisfy the theorem's premise *)
 Definition c24_fresh_transitions := Eval vm_compute in
-  count_true (fun t : res err * option st * bool => snd t) (List.concat (map (fun c : list op * st * list (res err * option st * bool) => snd c) cases_bfs)).
+  count_true (fun t : res err * bool => snd t)
+    (List.concat (map (fun c : list op * st * list (res err * bool) * list (Z * st) => snd (fst c)) cases_bfs)).
 Print c24_fresh_transitions.
